@@ -232,9 +232,9 @@ theorem relC_init : RelC' [] [] [] none [] w0C ConnM.init := by
         log := fun _ => rfl
         keys := fun p hp => by cases hp
         regBound := fun p hp => by cases hp }
-  · exact ⟨rfl, rfl, rfl, rfl, rfl, rfl, rfl, rfl, rfl, rfl, rfl, fun i hi => by cases hi⟩
+  · exact ⟨rfl, rfl, rfl, rfl, rfl, rfl, rfl, rfl, rfl, rfl, fun i hi => by cases hi⟩
   · exact
-      { ne := by decide, cellO := rfl, cellS := rfl, lenC := rfl, lenA := rfl
+      { ne := by decide, cellO := rfl, cellS := rfl, lenC := rfl, lenA := rfl, obsv := rfl
         obs := fun i hi => by simp [ConnM.init] at hi
         acell := fun i hi => by simp [ConnM.init] at hi
         liveArmed := fun i hi => by simp [ConnM.init] at hi }
